@@ -77,6 +77,9 @@ type chunkPayloadData struct {
 	// chunk is still in the inflight queue
 	retransmit bool
 
+	// firstSent is the time of the first transmission; since moves on every retransmission.
+	firstSent time.Time
+
 	head *chunkPayloadData // link to the head of the fragment
 
 	rackPrev   *chunkPayloadData
